@@ -1,6 +1,7 @@
 import json,sys
 pid=sys.argv[1]
 n=sys.argv[2] if len(sys.argv)>2 else '1'
+avoid=sys.argv[3] if len(sys.argv)>3 else ''
 props={json.loads(l)['id']:json.loads(l) for l in open('/verif/properties.jsonl')}
 p=props[pid]
 wt=f'/tmp/seed-{pid}-{n}'
@@ -26,6 +27,8 @@ normalisation, a changed default, two cooperating edits that each look fine alon
      value, rarely used figure or flag, a long/short duration, a part missing from a chord, a note right after a rest…),
      a multi-step sequence of operations, or an interaction of two sites — so that ordinary use and the test suite would
      not expose it at once. Do NOT break the common path (e.g. do not change the C major scale or every duration).
+
+{('Another engineer already wrote this change, choose a DIFFERENT part of the code, clause of the property and kind of mistake: ' + avoid) if avoid else ''}
 
 Deliver, in {wt}/SEED/ :
   - patch.diff   : `git -C {wt} diff` of your change to the library (only files under musiclang/; nothing under tests/);
